@@ -14,20 +14,30 @@ BigObj   == O(<< <<TcUrl, SF(65535, 5)>>, <<App, SF(0, 6)>> >>)
 EKObj    == O(<< <<App, S(Live)>>, << <<>>, N(Num7)>>, <<Code, Nul>> >>)
 EKEnd    == O(<< <<App, B(FALSE)>>, << <<>>, S(Live)>> >>)
 Objs     == {EmptyObj, AppObj, NestObj, EKObj, EKEnd} \cup (IF Thorough THEN {BigObj} ELSE {})
-Names    == {S(Live), SF(0, 7), SF(300, 7)} \cup (IF Thorough THEN {SF(65535, 8)} ELSE {})
+\* Value classes.  Every string-valued field: the empty string, one byte, the value the library's constructor presets
+\* for that field (if it presets one) and values different from it; every number: 0, the constructor's preset, others;
+\* every AMF0 value slot: null, undefined, an object (and absent where the slot is an optional trailing one).
+Rec      == <<114, 101, 99, 111, 114, 100>>        \* "record"
+Liv      == <<108, 105, 118>>                      \* "liv": a proper prefix of the preset
+Names    == {S(Live), SF(0, 7), SF(1, 7), SF(300, 7)} \cup (IF Thorough THEN {SF(65535, 8), S(Publish)} ELSE {})
+PubTypes == {EmptyStr, SF(1, 9), S(Live), S(Rec)} \cup (IF Thorough THEN {S(Liv), SF(300, 9)} ELSE {})
+CmdNames == {<<>>, <<120>>, OnStatus, FCPublish, CloseStream}
 U32s     == {<<0, 0>>, <<0, 1>>, <<0, 128>>, <<1, 0>>, <<32767, 65535>>, <<32768, 0>>, <<65535, 65535>>}
 STids    == IF Thorough THEN Tids ELSE {Num1, Num2_5, NumM31}
+ZTids    == STids \cup {Num0, Num2}                \* with 0 and the presets of the constructors (1, 2)
+CmdObjs  == {Nul, Und, EmptyObj} \cup (IF Thorough THEN {AppObj} ELSE {})
+StrObj   == O(<< <<App, EmptyStr>>, <<Code, SF(1, 4)>>, <<Level, N(Num0)>>, <<TcUrl, B(FALSE)>> >>)   \* empty / one-byte / zero inside a tree
 
 Commands ==
-       {[k |-> "connect", tid |-> Num1, obj |-> o, hasargs |-> h, args |-> a] : o \in Objs, h \in BOOLEAN, a \in {EmptyObj, AppObj, EKObj}}
-  \cup {[k |-> "connectRes", tid |-> t, obj |-> o, hasargs |-> h, args |-> a] : t \in STids, o \in Objs, h \in BOOLEAN, a \in {EmptyObj, NestObj}}
-  \cup {[k |-> "createStream", tid |-> t, obj |-> o] : t \in Tids, o \in {Nul, Und, EmptyObj}}
-  \cup {[k |-> "createStreamRes", tid |-> t, obj |-> Nul, sid |-> s] : t \in Tids, s \in {Num1, Num2_5, NumM31, Num0}}
-  \cup {[k |-> "publish", tid |-> t, obj |-> Nul, name |-> n, type |-> ty] : t \in STids, n \in Names, ty \in {S(Live), SF(1, 9)}}
-  \cup {[k |-> "play", tid |-> t, obj |-> Nul, name |-> n] : t \in STids, n \in Names}
+       {[k |-> "connect", tid |-> Num1, obj |-> o, hasargs |-> h, args |-> a] : o \in Objs \cup {StrObj}, h \in BOOLEAN, a \in {EmptyObj, AppObj, EKObj}}
+  \cup {[k |-> "connectRes", tid |-> t, obj |-> o, hasargs |-> h, args |-> a] : t \in STids, o \in Objs \cup {StrObj}, h \in BOOLEAN, a \in {EmptyObj, NestObj}}
+  \cup {[k |-> "createStream", tid |-> t, obj |-> o] : t \in Tids \cup {Num0}, o \in {Nul, Und, EmptyObj}}
+  \cup {[k |-> "createStreamRes", tid |-> t, obj |-> o, sid |-> s] : t \in Tids, o \in {Nul, Und, EmptyObj}, s \in {Num1, Num2_5, NumM31, Num0}}
+  \cup {[k |-> "publish", tid |-> t, obj |-> o, name |-> n, type |-> ty] : t \in ZTids, o \in CmdObjs, n \in Names, ty \in PubTypes}
+  \cup {[k |-> "play", tid |-> t, obj |-> o, name |-> n] : t \in ZTids, o \in CmdObjs, n \in Names}
   \cup {[k |-> "call", cmd |-> c, tid |-> t, hasobj |-> ho[1], obj |-> o, hasargs |-> ho[2], args |-> a] :
-           c \in {OnStatus, FCPublish, CloseStream}, t \in {Num0, Num3}, ho \in {<<FALSE, FALSE>>, <<TRUE, FALSE>>, <<TRUE, TRUE>>},
-           o \in {Nul, AppObj, N(Num2)}, a \in {Nul, AppObj, S(Live), B(TRUE), N(NumM31), EKEnd}}
+           c \in CmdNames, t \in {Num0, Num3}, ho \in {<<FALSE, FALSE>>, <<TRUE, FALSE>>, <<TRUE, TRUE>>},
+           o \in {Nul, Und, AppObj, N(Num2)}, a \in {Nul, Und, AppObj, S(Live), EmptyStr, B(TRUE), B(FALSE), N(NumM31), N(Num0), EKEnd}}
 Controls ==
        {[k |-> "scs", hi |-> u[1], lo |-> u[2]] : u \in U32s}
   \cup {[k |-> "winack", hi |-> u[1], lo |-> u[2]] : u \in U32s}
@@ -38,11 +48,25 @@ UserControls ==
 
 VARIABLES p
 Init == p \in Commands \cup Controls \cup UserControls
-Next == UNCHANGED p
+Next == FALSE /\ UNCHANGED p
 
 \* the request the receiver must have sent for a response to be decodable
-Pending(pkt) == CASE pkt.k = "connectRes" -> "connect" [] pkt.k = "createStreamRes" -> "createStream" [] OTHER -> "none"
+Pending(pkt) == PendingFor(pkt)
+\* the fields one by one: the library's name of the field, the value, its layout
+FieldRecs(pkt) == LET fs == Fields(pkt) sl == SlotsOf(pkt.k) IN [i \in 1..Len(fs) |->
+                    [f |-> sl[i].f, v |-> fs[i], e |-> IF IsCommandKind(pkt.k) THEN FieldLD(fs[i]) ELSE <<>>]]
 Emit == PrintT(<<"CASE", ToJson([p |-> p, enc |-> PktLD(p), size |-> PktSize(p), mtype |-> MsgType(p),
-                                 pending |-> Pending(p), kind |-> KindOf(p, Pending(p))])>>)
+                                 pending |-> Pending(p), kind |-> KindOf(p, Pending(p)), fields |-> FieldRecs(p)])>>)
 SizeSane == PktSize(p) >= 3 /\ (p.k = "uc" => PktSize(p) = 2 + UcBodyLen(p.et))
+\* every packet of the matrix makes the journey of RtmpCodec inside TLC (byte-level decoder of the specification; the
+\* 64 KB strings are left to the implementation): dispatched to its own kind and decoded to its own fields, whatever
+\* the receiver's packet held before
+CodecOk ==
+  PktSize(p) > 4000 \/ (~Thorough /\ p.k = "uc" /\ p.et >= 64 /\ p.et % 257 # 0) \/   \* quick: a sample of the event-type sweep
+  LET b == Bytes(PktLD(p)) IN
+  /\ b = Bytes(EncFieldsD(p.k, Fields(p), "none"))
+  /\ DispatchKind(MsgType(p), b, PendingFor(p)) = p.k
+  /\ \A t \in {"ctor", "zero"} :
+       LET d == DecPktD(p.k, b, Target(p.k, t, IF IsCommandKind(p.k) THEN WireTid(b) ELSE Num0), "none") IN
+       d.ok /\ d.f = NormFields(Fields(p)) /\ SizeD(p.k, d.f, "none") = Len(b)
 =============================================================================
